@@ -20,8 +20,11 @@ VERIF = os.path.dirname(os.path.dirname(os.path.abspath(__file__)))
 REPO = os.environ.get("VERIF_REPO", "/repo")
 SPEC = os.path.join(VERIF, "spec")
 HARNESS = os.path.join(VERIF, "harness")
-EVIDENCE = os.path.join(VERIF, "evidence")
-REPLAYS = os.path.join(VERIF, "replays")
+# VERIF_OUT redirects evidence and replay files (used by bin/pseedmatrix, which runs the checks against scratch worktrees
+# given by VERIF_REPO; the registered commands use neither variable: /repo, /verif/evidence, /verif/replays)
+_OUT = os.environ.get("VERIF_OUT", VERIF)
+EVIDENCE = os.path.join(_OUT, "evidence")
+REPLAYS = os.path.join(_OUT, "replays")
 NCPU = os.cpu_count() or 4
 
 
@@ -70,13 +73,24 @@ class Ctx:
         self._n = 0
 
     # ---------------------------------------------------------------- build
+    def harness_dir(self):
+        """The harness module; a scratch copy whose replace directive points to VERIF_REPO when that is not /repo."""
+        if REPO == "/repo":
+            return HARNESS
+        d = os.path.join(self.scratch, "harness_src")
+        if not os.path.isdir(d):
+            shutil.copytree(HARNESS, d)
+            gm = open(os.path.join(d, "go.mod")).read().replace("=> /repo", "=> " + REPO)
+            open(os.path.join(d, "go.mod"), "w").write(gm)
+            shutil.copy(os.path.join(REPO, "go.sum"), os.path.join(d, "go.sum"))
+        return d
+
     def vh(self):
         """Build the harness (and with it /repo's packages) from the current tree."""
         if self._vh is None:
             out = os.path.join(self.scratch, "bin", "vh")
             os.makedirs(os.path.dirname(out), exist_ok=True)
-            sumf = os.path.join(HARNESS, "go.sum")
-            r = subprocess.run(["go", "build", "-o", out, "./cmd/vh"], cwd=HARNESS, env=go_env(),
+            r = subprocess.run(["go", "build", "-o", out, "./cmd/vh"], cwd=self.harness_dir(), env=go_env(),
                                stdout=subprocess.PIPE, stderr=subprocess.STDOUT, text=True)
             if r.returncode != 0:
                 raise ToolError("harness build failed (does /repo compile?):\n" + r.stdout)
@@ -96,7 +110,7 @@ class Ctx:
             if name == "gogreement":
                 cwd, pkg = REPO, "./cmd/gogreement"
             else:
-                cwd, pkg = HARNESS, "./cmd/" + name
+                cwd, pkg = self.harness_dir(), "./cmd/" + name
             cmd = ["go", "build"]
             if race:
                 cmd.append("-race")
